@@ -358,7 +358,8 @@ def dynamic_stage(c, level, summ, verdict, focus=None, tag='', cases=None):
   singles = {'np.random global state': {'np_seed': 12345, 'burn': 7},
              'random (python) global state': {'py_seed': 54321, 'burn': 3},
              'wall clock (time.time / datetime.now)': {'clock_offset': 7.5e6},
-             'an unrelated study ran first': {'unrelated': 77}}
+             'an unrelated study ran first': {'unrelated': 77},
+             'another seeded study stepped alongside in the same process': {'alongside': True}}
   base_results = {}
   for idx, case in enumerate(cases):
     d = case['designer']
@@ -367,7 +368,7 @@ def dynamic_stage(c, level, summ, verdict, focus=None, tag='', cases=None):
     base = W.run_case(case)
     base_results[idx] = base
     pert = {'np_seed': rng.randrange(2 ** 31), 'py_seed': rng.randrange(2 ** 31), 'burn': rng.randrange(1, 50),
-            'clock_offset': float(rng.randrange(10 ** 6, 10 ** 8)), 'unrelated': rng.randrange(1, 1000)}
+            'clock_offset': float(rng.randrange(10 ** 6, 10 ** 8)), 'unrelated': rng.randrange(1, 1000), 'alongside': True}
     with W.perturbed(pert):
       again = W.run_case(case)
     c.traces += 1
